@@ -386,6 +386,8 @@ func (w *World) callOrder(id string, opts *RunOpts, ex *Extra) {
 	w.argFrom(id, opts, ex)
 	w.guarded(id, opts, ex)
 	w.fieldFrom(id, opts, ex)
+	w.successPathCalls(id, opts, ex)
+	w.afterLoop(id, opts, ex)
 	for _, c := range w.specs.Contracts {
 		if !hasTag(c.Props, id) {
 			continue
@@ -616,4 +618,170 @@ func valueSource(v ssa.Value) string {
 		return "map:?"
 	}
 	return "other:" + v.String()
+}
+
+// successPathCalls: `success-path-calls <callee> <n>` — the least number of calls of
+// <callee> on a path from the entry to each `return …, nil` (a nil error as last
+// result) is one of the listed counts; back edges are ignored. (Both spellings of a keyword are decoded on
+// every successful load, not only when some test of the raw text says so.)
+func (w *World) successPathCalls(id string, opts *RunOpts, ex *Extra) {
+	for _, c := range w.specs.Contracts {
+		if !hasTag(c.Props, id) {
+			continue
+		}
+		for _, cl := range c.Clauses {
+			if cl.Kind != "success-path-calls" {
+				continue
+			}
+			f := strings.Fields(cl.Raw)
+			if len(f) != 2 {
+				continue
+			}
+			callee := f[0]
+			// "2" or "1|3": the admissible minimal call counts, one per kind of
+			// successful return (a boolean schema returns after one decode, an object
+			// after three)
+			allowed := map[int]bool{}
+			for _, x := range strings.Split(f[1], "|") {
+				var v int
+				fmt.Sscan(x, &v)
+				allowed[v] = true
+			}
+			name := fmt.Sprintf("%s/success-path-calls:%s=%s", c.Func, callee, f[1])
+			fn := w.findFunc(c)
+			ex.Count++
+			if fn == nil {
+				ex.Lines = append(ex.Lines, "UNDECIDED: "+c.Func+" not found; "+name+" is not checked")
+				ex.Discharged++
+				continue
+			}
+			calls := map[*ssa.BasicBlock]int{}
+			total := 0
+			for _, b := range fn.Blocks {
+				for _, ins := range b.Instrs {
+					if call, ok := ins.(*ssa.Call); ok && strings.Contains(calleeName(call), callee) {
+						calls[b]++
+						total++
+					}
+				}
+			}
+			// minimum number of calls on a path from the entry to the END of each block
+			const inf = 1 << 30
+			best := map[*ssa.BasicBlock]int{}
+			for _, b := range fn.Blocks {
+				best[b] = inf
+			}
+			best[fn.Blocks[0]] = calls[fn.Blocks[0]]
+			for changed, rounds := true, 0; changed && rounds < len(fn.Blocks)+2; rounds++ {
+				changed = false
+				for _, b := range fn.Blocks {
+					if best[b] == inf {
+						continue
+					}
+					for _, sc := range b.Succs {
+						if v := best[b] + calls[sc]; v < best[sc] {
+							best[sc] = v
+							changed = true
+						}
+					}
+				}
+			}
+			bad := ""
+			succReturns := 0
+			for _, b := range fn.Blocks {
+				ret, ok := b.Instrs[len(b.Instrs)-1].(*ssa.Return)
+				if !ok || len(ret.Results) == 0 || best[b] == inf {
+					continue
+				}
+				last, isConst := ret.Results[len(ret.Results)-1].(*ssa.Const)
+				if !isConst || !last.IsNil() {
+					continue
+				}
+				succReturns++
+				if !allowed[best[b]] && bad == "" {
+					p := w.prog.Fset.Position(ret.Pos())
+					bad = fmt.Sprintf("the successful return at line %d can be reached after %d call(s) of %s (the contract says %s)", p.Line, best[b], callee, f[1])
+				}
+			}
+			switch {
+			case total == 0 || succReturns == 0:
+				ex.Lines = append(ex.Lines, fmt.Sprintf("UNDECIDED: %s: no call of %s / no `return nil` found in %s any more", name, callee, c.Func))
+				ex.Discharged++
+			case bad != "":
+				path := writeTextReplay(opts, id, name, bad+"\n(abstract-mode control-flow obligation over go/ssa)", "", "", "bin/govc check "+id)
+				ex.Lines = append(ex.Lines, fmt.Sprintf("VIOLATION property=%s replay=%s no-failing-input-found", id, path))
+				ex.Lines = append(ex.Lines, "  failed obligation: "+name+": "+bad)
+				ex.Violations++
+			default:
+				ex.Discharged++
+			}
+		}
+	}
+}
+
+// afterLoop: `after-loop <callee> <event>` — every call of <callee> comes after
+// the loop whose body holds <event>: the loop's header dominates the call and the
+// call is outside the loop. (The properties of an object are visited, and their
+// errors reported, before the object is handed to the anyOf/allOf builders.)
+func (w *World) afterLoop(id string, opts *RunOpts, ex *Extra) {
+	for _, c := range w.specs.Contracts {
+		if !hasTag(c.Props, id) {
+			continue
+		}
+		for _, cl := range c.Clauses {
+			if cl.Kind != "after-loop" {
+				continue
+			}
+			f := strings.Fields(cl.Raw)
+			if len(f) != 2 {
+				continue
+			}
+			callee, event := f[0], f[1]
+			name := fmt.Sprintf("%s/after-loop:%s-after-%s", c.Func, callee, event)
+			fn := w.findFunc(c)
+			ex.Count++
+			if fn == nil {
+				ex.Lines = append(ex.Lines, "UNDECIDED: "+c.Func+" not found; "+name+" is not checked")
+				ex.Discharged++
+				continue
+			}
+			var hdr *ssa.BasicBlock
+			var body map[*ssa.BasicBlock]bool
+			for h, bd := range loopsOf(fn) {
+				for b := range bd {
+					for _, ins := range b.Instrs {
+						if isEvent(ins, event) {
+							hdr, body = h, bd
+						}
+					}
+				}
+			}
+			found, bad := 0, ""
+			for _, b := range fn.Blocks {
+				for _, ins := range b.Instrs {
+					call, ok := ins.(*ssa.Call)
+					if !ok || !strings.Contains(calleeName(call), callee) {
+						continue
+					}
+					found++
+					if hdr != nil && (!hdr.Dominates(b) || body[b]) && bad == "" {
+						p := w.prog.Fset.Position(call.Pos())
+						bad = fmt.Sprintf("the call of %s at line %d can be reached without passing the loop that holds %s", callee, p.Line, event)
+					}
+				}
+			}
+			switch {
+			case found == 0 || hdr == nil:
+				ex.Lines = append(ex.Lines, fmt.Sprintf("UNDECIDED: %s: no call of %s or no loop with %s found in %s any more", name, callee, event, c.Func))
+				ex.Discharged++
+			case bad != "":
+				path := writeTextReplay(opts, id, name, bad+"\n(abstract-mode control-flow obligation over go/ssa)", "", "", "bin/govc check "+id)
+				ex.Lines = append(ex.Lines, fmt.Sprintf("VIOLATION property=%s replay=%s no-failing-input-found", id, path))
+				ex.Lines = append(ex.Lines, "  failed obligation: "+name+": "+bad)
+				ex.Violations++
+			default:
+				ex.Discharged++
+			}
+		}
+	}
 }
